@@ -11,7 +11,7 @@ All ==
     UNION { { St(c, "JOIN", <<<<"#one">>>>), St(c, "JOIN", <<<<"#pre">>>>), St(c, "JOIN", <<<<"#one", "#pre">>>>),
               St(c, "PART", <<<<"#one">>>>), St(c, "PART", <<<<"#pre", "#one">>, <<"bye">>>>),
               St(c, "QUIT", <<>>), St(c, "!rst", <<>>) } : c \in {A, B, C} }
-    \cup { St(A, "KICK", <<<<"#one">>, <<"bob", "carol">>>>), St(B, "KICK", <<<<"#pre">>, <<"carol">>, <<"out">>>>),
+    \cup { St(A, "KICK", <<<<"#one">>, <<"bob", "carol">>>>), St(A, "KICK", <<<<"#one">>, <<"bob", "carol", "bob">>>>), St(B, "KICK", <<<<"#pre">>, <<"carol">>, <<"out">>>>),
            St(A, "NICK", <<<<"alicia">>>>), St(B, "NICK", <<<<"alice">>>>), St(C, "MODE", <<<<"carol">>, <<"+i">>>>),
            St(A, "MODE", <<<<"#one">>, <<"+s">>>>), St(B, "CAP", <<<<"REQ">>, <<"multi-prefix">>>>) }
 Enabled(st) == st.c \in DOMAIN S.conns
